@@ -44,6 +44,7 @@ def read(self, path: str, detect_rf_use: bool = False, remove_duplicates: bool =
 
     # Event libraries
     self.adc_library = EventLibrary()
+    self.extensions_library = EventLibrary()
     self.grad_library = EventLibrary()
     self.label_inc_library = EventLibrary()
     self.label_set_library = EventLibrary()
